@@ -9,7 +9,11 @@ import (
 
 	"github.com/gmrtd/gmrtd/iso7816"
 
+	"verif/internal/e2e"
+	"verif/internal/perso"
+	"verif/internal/refchip"
 	"verif/internal/refcrypto"
+	"verif/internal/refpki"
 	"verif/internal/smdrv"
 	"verif/internal/vc"
 )
@@ -250,6 +254,61 @@ part2:
 	for _, alg := range smdrv.Algs {
 		for _, ssc := range []int{0, 1, 3} {
 			rec(alg, ssc, nil)
+		}
+	}
+	// part 3: no command leaves unprotected once a session exists - complete reads of genuinely issued chips
+	sec3 := "full reads: every command after session establishment is protected and authenticates"
+	if err := refpki.EnsureKeys(); err != nil {
+		c.HarnessError("refpki keys: %v", err)
+		return
+	}
+	one := 1
+	reads := []perso.Config{
+		{BAC: true, DGs: []int{2, 7, 11, 12, 13, 16}},
+		{BAC: true, DGs: []int{2}, AA: &perso.AASpec{RSABits: 2048, Trailer: "34CC"}, CA: []perso.CASpec{{Curve: "P-256", Cipher: 2, KeyID: &one}}},
+		{BAC: true, DGs: []int{2}, CA: []perso.CASpec{{Curve: "brainpoolP384r1", Cipher: 1, NoInfo: true}}},
+		{PACE: []refchip.PACEProto{{Mapping: 2, Cipher: 1, ParamID: 12}}, DGs: []int{2, 11}},
+		{PACE: []refchip.PACEProto{{Mapping: 2, Cipher: 4, ParamID: 17}}, DGs: []int{2}, CA: []perso.CASpec{{Curve: "brainpoolP512r1", Cipher: 4}}},
+		{PACE: []refchip.PACEProto{{Mapping: 6, Cipher: 3, ParamID: 16}}, DGs: []int{2, 12}, AA: &perso.AASpec{Curve: "P-384"}},
+		{BAC: true, PACE: []refchip.PACEProto{{Mapping: 2, Cipher: 2, ParamID: 13}}, DGs: []int{2}, DGOverride: map[int][]byte{13: append([]byte{0x6D, 0x82, 0x13, 0x88}, make([]byte, 5000)...)}},
+	}
+	c.SecBound(sec3, fmt.Sprintf("%d chip configurations x maxLe {default, 65536, 100}", len(reads)))
+	for i, cfg := range reads {
+		for _, ml := range []int{0, 65536, 100} {
+			if !c.Mine() {
+				continue
+			}
+			p := perso.Build(cfg)
+			r := e2e.Read(p, e2e.ReadOpts{MaxLe: ml})
+			t := p.Chip.Truth
+			started := false
+			bad := ""
+			for n, ex := range p.Chip.Log {
+				if ex.Protected {
+					started = true
+				} else if started && ex.Note != "" {
+					bad = fmt.Sprintf("exchange %d after session start: %s (wire %x...)", n, ex.Note, ex.Wire[:min(len(ex.Wire), 12)])
+					break
+				} else if started {
+					bad = fmt.Sprintf("exchange %d after session start is an unprotected command %x...", n, ex.Wire[:min(len(ex.Wire), 12)])
+					break
+				}
+			}
+			c.AddStates(1)
+			c.AddTrans(int64(len(p.Chip.Log)))
+			c.AddTraces(1)
+			rec := map[string]any{"config": i, "maxLe": ml}
+			switch {
+			case r.Panic != nil || r.Err != nil:
+				c.Outcome(sec3, "read-failed")
+				c.Violation(sec3, "fullread/failed", fmt.Sprintf("fault-free read %d (maxLe %d) failed: %v %v", i, ml, r.Panic, r.Err), rec, nil)
+			case bad != "" || t.UnprotectedWhileSM != 0 || t.SMAborted != 0:
+				c.Outcome(sec3, "VIOLATION")
+				c.Violation(sec3, "fullread/unprotected-or-unauthentic-command-during-session", fmt.Sprintf("read %d (maxLe %d): %s; chip counted %d plain commands during SM, %d aborted sessions", i, ml, bad, t.UnprotectedWhileSM, t.SMAborted), rec, nil)
+			default:
+				c.Outcome(sec3, "all-protected")
+			}
+			c.Distinct(fmt.Sprintf("p3/%d/%d", i, ml))
 		}
 	}
 	if c.Shard == 0 {
